@@ -192,6 +192,12 @@ func main() {
 		replayMain(os.Args[2])
 	case "selftest":
 		selftestMain()
+	case "racepass":
+		tier := "quick"
+		if len(os.Args) > 2 {
+			tier = os.Args[2]
+		}
+		racepassMain(tier)
 	default:
 		tier := "quick"
 		if len(os.Args) > 2 {
